@@ -21,17 +21,21 @@ def workloads(rng, tier):
     wl = []
     n = 1 if tier == 'quick' else 12
     for rep in range(n):
-        for keys, times in ((1, 1), (0, 0)) if tier == 'quick' else ((1, 1), (0, 0), (1, 0), (0, 1)):
+        for keys, times, back in ((1, 1, 0), (0, 0, 0), (0, 1, 1)) if tier == 'quick' else \
+                ((1, 1, 0), (0, 0, 0), (1, 0, 0), (0, 1, 0), (1, 1, 1), (0, 1, 1)):
             ver = rng.choice([2, 2, 1]) if tier != 'quick' else 2
 
             def op_open(roll, rec=0, v=ver, keep=0, eager=0, autosync=0):
                 return 'open 0 %d %d %d %d 0 %d %d %d %d' % (keys, times, autosync, roll, rec, v, keep, eager)
             t = [100]
+            # the 'b' profiles publish times that go back and forth (the index timestamp is the running maximum,
+            # whoever writes the index: Publish, Recover, the rewrite of a Delete, Migrate)
+            steps = [-3, 0, 2, 5] if back else [0, 1]
 
             def m(k=None):
-                t[0] += rng.choice([0, 1])
-                return '%d|%s|%s' % (t[0], k or rng.choice(['61', '62', '-', '6100']), rnd_val(rng))
-            tag = 'k%dt%dv%d.%d' % (keys, times, ver, rep)
+                t[0] = max(1, t[0] + rng.choice(steps))
+                return '%d|%s|%s' % (t[0], k or rng.choice(['61', '62', '-', '6100', '=']), rnd_val(rng))
+            tag = 'k%dt%d%sv%d.%d' % (keys, times, 'b' if back else '', ver, rep)
             # publish with rollover
             wl.append(('pub-' + tag, [op_open(90), 'pub ' + m() + ' ' + m(), 'pub ' + m(), 'pub ' + m() + ' ' + m() + ' ' + m(),
                                        'sync', 'pub ' + m(), 'close']))
@@ -58,6 +62,10 @@ def workloads(rng, tier):
                                              op_open(100000, rec=1), 'pub ' + m(), 'close']))
             # AutoSync publish
             wl.append(('autosync-' + tag, [op_open(90, autosync=1), 'pub ' + m() + ' ' + m(), 'pub ' + m(), 'del 0', 'close']))
+            if back and tier == 'quick':
+                # the every-change tier keeps a few of them
+                keep = ('pub-', 'delh-mid-', 'delh-tail-', 'delr-mid-', 'd2-recover-')
+                wl = [x for x in wl if not x[0].endswith(tag) or x[0].startswith(keep)]
     return wl
 
 
@@ -123,7 +131,8 @@ def acked_states(run_ops):
             offs = [int(x) for x in r[2:]]
             for o, mtok in zip(offs, f[1:]):
                 t, k, v = mtok.split('|')
-                live[o] = '%d|%s|%s|%s' % (o, t, k, v)
+                # '=' (empty but not nil) is the same key or value as '-' (nil) and reads back as '-'
+                live[o] = '%d|%s|%s|%s' % (o, t, '-' if k == '=' else k, '-' if v == '=' else v)
             nxt = int(r[1])
         elif f[0] in ('del', 'delm') or f[0].startswith('trim') or f[0] in ('cupd', 'cdel'):
             for mm in MSGRE.finditer(res[0] if res else ''):
@@ -209,7 +218,10 @@ def p_image(name, img, states, run_ops):
     if not pubs or not pubs[-1] or not pubs[-1][0].startswith('ok'):
         fails.append(('appendable_after_recovery', 'publish -> %s' % (pubs[-1] if pubs else None)))
     chk = [r for o, r in ops if o == 'checkall']
-    if chk and chk[-1] != ['ok']:
+    # Check compares index timestamps with the running maximum recomputed from 0; with a time index and times that go
+    # back (the 'b' profiles) the writer's carried time makes a clean tree fail it too (DESIGN 12.4): not claimed there
+    back_times = re.search(r'k\dt1bv', name) is not None
+    if chk and chk[-1] != ['ok'] and not back_times:
         fails.append(('check_after_append', 'Check -> %s' % chk[-1]))
     fails += p_after_append(ops)
     return fails
@@ -437,6 +449,22 @@ def crash_extra(pid, tier, seed, powerloss):
                                  'program of coq/CrashDir.v (delete_prog / publish_prog; theorems C05_override_crash_safe / C05_drop_crash_safe / '
                                  'C05_rebase_overlap / C05_create_head_crash_safe / C05_head_all_crash_safe / C05_head_tail_override_crash_safe)\n# %s\n'
                                  % (pid, '\n# '.join(progbad[:5]))))
+        nsyncack = 0
+        if powerloss:
+            # Sync under load: what Sync returns must be covered by the fsync it performed (a Sync that reads the offset
+            # after letting publishers in acknowledges messages that are not on stable storage yet)
+            sp = os.path.join(d, 'syncack.txt')
+            rounds = 300 if tier == 'quick' else 5000
+            open(sp, 'w').write('csyncack %d\n' % rounds)
+            env2 = dict(os.environ, KV_WORK=os.path.join(d, 'dirs-sync'))
+            os.makedirs(env2['KV_WORK'], exist_ok=True)
+            r = subprocess.run([kv.KVRUN, 'conc', sp], stdout=subprocess.PIPE, stderr=subprocess.PIPE, text=True, env=env2, timeout=1800)
+            res = [l for l in r.stdout.split('\n') if l.startswith('= ')]
+            nsyncack = rounds
+            if r.returncode != 0 or not res or not res[0].startswith('= ok'):
+                viol.append(('P', '# C06 violated: Sync under load acknowledged an offset its fsync did not cover\n# workload: four publishers '
+                                  'of fixed-size messages into one segment, one goroutine calling Sync (kvrun conc: csyncack %d)\n# %s\n'
+                                  % (rounds, (res[0] if res else r.stderr[-500:]))))
         if not viol and durbad:
             viol.append(('corr', '# correspondence corr:%s/durable-programs no longer checks: the write / fsync / create steps of a Publish, '
                                  'Sync or Close differ from the steps of coq/Durable.v (publish_kinds / sync_kinds; theorems '
@@ -444,6 +472,7 @@ def crash_extra(pid, tier, seed, powerloss):
                                  % (pid, '\n# '.join(durbad[:5]))))
         cov = dict(crash=dict(workloads=len(wl), images=nimg, torn_images=ntorn, recoveries_compared_with_model=nimg - len(viol),
                               durable_programs_compared_with_Durable=ndur, durable_program_mismatches=len(durbad),
+                              syncs_under_load_checked_against_their_fsync=nsyncack,
                               delete_programs_compared_with_CrashDir=nprog, delete_program_mismatches=len(progbad),
                               correspondence_mismatches=len(mism), property_failures=len(viol),
                               known_finding_hits=sorted(known_hits), image_distribution=dist,
